@@ -15,7 +15,7 @@ from taskiq.scheduler.scheduled_task import ScheduledTask
 from ._scommon import ASSUMPTIONS, COMPONENTS_REAL, COMPONENTS_STUB, Violation, simplifications  # noqa: F401
 
 ID = "C13"
-RUNS = {"quick": 4000, "thorough": 120000}
+RUNS = {"quick": 6000, "thorough": 120000}
 BUDGET_S = {"quick": 90, "thorough": 900}
 CHUNK = 32
 LIST_KEYS = ("instants",)
